@@ -13,6 +13,7 @@ import (
 	"context"
 	"database/sql"
 	"fmt"
+	"regexp"
 	"runtime"
 	"sort"
 	"strings"
@@ -287,6 +288,26 @@ func dumpSchema(s *schema.Schema) string {
 	return strings.Join(ts, "")
 }
 
+// nameCollision: a table of the schema has an inline UNIQUE column c and an explicit index called
+// <table>_<c>, the name normalizeIdxName gives the constraint's automatic index.
+func nameCollision(s sschema) bool {
+	for _, t := range s {
+		for _, c := range t.cols {
+			if !c.uniq {
+				continue
+			}
+			for _, i := range t.idx {
+				if i.name == t.name+"_"+c.name {
+					return true
+				}
+			}
+		}
+	}
+	return false
+}
+
+var reDefLit = regexp.MustCompile(`def=L\('([^']*)'\)`)
+
 // canonAuto maps, in a schema dump, the index line of an inline UNIQUE constraint
 // (sqlite_autoindex_<t>_<n>, origin u) and the line of the named index normalizeIdxName gives it
 // (<t>_<col>_..., origin c) to the same text.
@@ -314,7 +335,9 @@ func canonAuto(d string) string {
 		out = append(out, l)
 	}
 	sort.Strings(out)
-	return strings.Join(out, "\n")
+	// defaultValue prints the literal default of a non-numeric column quoted: DEFAULT 3 on a text
+	// column comes back as DEFAULT '3' (the same value for SQLite; the differ reports no change)
+	return reDefLit.ReplaceAllString(strings.Join(out, "\n"), "def=L($1)")
 }
 
 func trunc(s string, n int) string {
@@ -630,6 +653,14 @@ func genUpDown(tier string) []ucase {
 			add(sschema{child}, sschema{child, par}, "special:dangling-parent:"+act, fk, "", false)
 		}
 	}
+	// 2c. DROP TABLE of a table with an inline UNIQUE column c and an index called <table>_<c>
+	{
+		t := stab{name: "acct", cols: []scol{{name: "id", typ: "integer", notnull: true}, {name: "email", typ: "text", notnull: true, uniq: true}}, pk: []string{"id"},
+			idx: []sidx{{name: "acct_email", cols: []string{"email"}}}}
+		other := stab{name: "plain", cols: []scol{{name: "a", typ: "int"}}}
+		add(sschema{t, other}, sschema{other}, "special:collision:DT", true, "", false)
+		add(sschema{t}, sschema{}, "special:collision:DT-only", false, "", false)
+	}
 	// 3. random multi-edit pairs (2..4 edits, catalogue recomputed after every edit)
 	cnt := 700
 	if thorough {
@@ -749,6 +780,9 @@ func runUpDownStage(w *out.W, tier string) {
 				break
 			}
 		}
+		if nameCollision(c.cur) {
+			tags = append(tags, "autoindex-name-collision")
+		}
 		if strings.HasPrefix(c.label, "special:dangling-parent:") && c.fk {
 			tags = append(tags, "dangling-parent")
 		}
@@ -827,7 +861,7 @@ func runUpDownStage(w *out.W, tier string) {
 		if r.strict && canonAuto(r.s0) == canonAuto(r.s2) {
 			// DROP TABLE's reverse re-creates an inline UNIQUE constraint (sqlite_autoindex_<t>_<n>, origin u) as
 			// a named unique index <t>_<cols> (origin c): the differ treats the two as the same index
-			w.Count("restored-up-to-autoindex-name")
+			w.Count("restored-up-to-autoindex-name-or-default-quoting")
 			continue
 		}
 		if r.strict {
